@@ -3773,3 +3773,55 @@ pub(crate) mod verif_idle_connection_hooks {
         Ok((Arc::new(connection), error_receiver))
     }
 }
+
+/// Verification hook (only with `--cfg scylla_verif`): pass-through to
+/// [`Connection::execute_iter`] (the pager used by the control connection) on a freshly
+/// opened bare connection, so that an external harness can drive the single-connection
+/// paging path against a scripted server.
+#[cfg(scylla_verif)]
+#[allow(missing_docs)]
+pub mod verif_pager_hooks {
+    use super::*;
+    use crate::cluster::node::ResolvedContactPoint;
+
+    /// Opens a connection to `addr` (full OPTIONS/STARTUP handshake), prepares `statement`
+    /// on it and calls `Connection::execute_iter` without bound values.
+    /// Outer `Err`: the connection could not be opened or the statement not prepared.
+    pub async fn execute_iter_on_new_connection(
+        addr: SocketAddr,
+        statement: Statement,
+    ) -> Result<Result<QueryPager, NextRowError>, String> {
+        let config = HostConnectionConfig {
+            local_ip_address: None,
+            shard_aware_local_port_range: ShardAwarePortRange::EPHEMERAL_PORT_RANGE,
+            compression: None,
+            tcp_socket_options: TcpSocketOptions::default(),
+            timestamp_generator: None,
+            event_sender: None,
+            tls_config: None,
+            connect_timeout: std::time::Duration::from_secs(5),
+            default_consistency: Default::default(),
+            authenticator: None,
+            address_translator: None,
+            write_coalescing_delay: None,
+            keepalive_interval: None,
+            keepalive_timeout: None,
+            tablet_sender: None,
+            identity: SelfIdentity::default(),
+        };
+        let (connection, _error_receiver) = open_connection(
+            &UntranslatedEndpoint::ContactPoint(ResolvedContactPoint { address: addr }),
+            None,
+            &config,
+        )
+        .await
+        .map_err(|e| format!("open_connection: {e}"))?;
+        let prepared = connection
+            .prepare(&statement)
+            .await
+            .map_err(|e| format!("prepare: {e}"))?;
+        Ok(Arc::new(connection)
+            .execute_iter(prepared, SerializedValues::new())
+            .await)
+    }
+}
